@@ -46,6 +46,102 @@ def fam_ops(prog, fns, fams):
     return out
 
 
+def rollback_rules(rep, prog, C, fams, r22, r23, names=("add_impl", "update_impl", "remove_impl")):
+    """Forward/rollback pairing of index operations and rollback-or-poison on every error exit (shared by C02 and C04)."""
+    MUT_OPS = {"insert", "remove", "update", "purge_ids", "batch_update"}
+    # ------------------------------------------------------------------ R02.2 / R02.3 forward vs rollback
+    inv = {"insert": "remove", "remove": "insert", "update": "update", "purge_ids": None}
+    pois_ids = C.poison_ids
+    for name in names:
+        f = prog.fn(anda.COLL + "::" + name)
+        clos = [prog.fns[e.cid] for e in f.creates() if e.cid in prog.fns]
+        # classify closures: rollback = invoked only on error edges
+        err_targets = set()
+        for (sb, place, adt, m, els) in f.variant_edges():
+            if adt in ("core::result::Result", "core::ops::control_flow::ControlFlow"):
+                t = m.get("Err", m.get("Break"))
+                if t is not None:
+                    err_targets.add(t)
+        rollback, forward_cl = [], []
+        for c in clos:
+            if not fam_ops(prog, [c] + prog.closures_of(c), fams):
+                continue
+            inv_sites = [e for e in f.calls() if c.id in prog.callee_nodes(e)]
+            if inv_sites and all(any(f.dominates(t, e.block) for t in err_targets) for e in inv_sites):
+                rollback.append((c, inv_sites))
+            else:
+                forward_cl.append((c, inv_sites))
+        fwd_fns = [c for c, _ in forward_cl] or [f]
+        fwd = fam_ops(prog, fwd_fns, fams)
+        if not rollback:
+            rep.ob(r22, "rollback-closure|%s" % name, False, "no rollback closure (index-mutating closure invoked only on error edges) found", f.file + ":%d" % f.line)
+            continue
+        rb = fam_ops(prog, [rollback[0][0]] + prog.closures_of(rollback[0][0]), fams)
+        for fam in sorted(fams):
+            fo = {op for op, _ in fwd.get(fam, ()) if op in MUT_OPS}
+            ro = {op for op, _ in rb.get(fam, ()) if op in MUT_OPS}
+            need = {inv[o] for o in fo if inv.get(o)}
+            rep.ob(r22, "inverse|%s|%s" % (name, fam), bool(fo) and need <= ro,
+                   "forward ops %s on %s need rollback ops %s, rollback closure has %s" % (sorted(fo), fam, sorted(need), sorted(ro)),
+                   "%s:%d" % (rollback[0][0].file, rollback[0][0].line))
+        # swapped operands for update
+        for fam in fams:
+            for (op, e) in rb.get(fam, ()):
+                if op == "update":
+                    g = e.fn
+                    a_old = _first_ref_field(g, e.args[2])
+                    a_new = _first_ref_field(g, e.args[3])
+                    ok = a_old == "1" and a_new == "0"
+                    rep.ob(r22, "swap|%s|%s" % (name, fam), ok,
+                           "rollback update must restore (new -> old): its `old` operand borrows tuple field .1 and its `new` operand field .0 (got .%s / .%s)" % (
+                               a_old, a_new), e.where())
+        # id-keyed families (BM25, HNSW): a removal of the id after an insertion of the same id, in the same pass, deletes the
+        # entry that was just (re)inserted - the remove must come first in the forward pass *and* in the rollback closure
+        for side, table in (("forward", fwd), ("rollback", rb)):
+            for fam in sorted(fams):
+                if fam == "btree_indexes":
+                    continue
+                insl = [e for (op, e) in table.get(fam, ()) if op == "insert"]
+                reml = [e for (op, e) in table.get(fam, ()) if op == "remove"]
+                if not insl or not reml:
+                    continue
+                late = []
+                for i_ in insl:
+                    for r_ in reml:
+                        if i_.fn is not r_.fn:
+                            continue
+                        g = i_.fn
+                        heads = {e.block for e in g.calls_named(r"Iterator::next$")}
+                        common = {h for h in heads if g.dominates(h, i_.block) and g.dominates(h, r_.block)
+                                  and g.can_reach([i_.block], [h]) and g.can_reach([r_.block], [h])}
+                        if r_.block in g.reachable_from(g.succ[i_.block], avoid=common):
+                            late.append(r_)
+                rep.ob(r22, "remove-before-insert|%s|%s|%s" % (name, side, fam), not late,
+                       "an id-keyed removal can run after the insertion of the same id in the %s pass (it would delete the entry just inserted)" % side,
+                       late[0].where() if late else f.file + ":%d" % f.line)
+        # R02.3
+        rb_blocks = set()
+        for c, sites in rollback:
+            rb_blocks |= {e.block for e in sites}
+        pb = {e.block for e in f.calls() if e.cid in pois_ids}
+        if forward_cl:
+            starts = set()
+            for c, sites in forward_cl:
+                starts |= {e.block for e in sites}
+        else:
+            starts = {e.block for fam in fwd for (op, e) in fwd[fam] if op in MUT_OPS and e.fn is f}
+        err_ret = _err_return_blocks(f)
+        bad = []
+        for s in sorted(starts):
+            r = valueflow.reachable_ps(f, s, avoid=rb_blocks | pb)
+            hit = (r & err_ret) - {s}
+            if hit:
+                bad.append((s, sorted(hit)[:3]))
+        rep.ob(r23, "rollback-or-poison|%s" % name, bool(starts) and bool(err_ret) and not bad,
+               "an error return is reachable after a forward index mutation without rollback/poison: %s" % bad, f.file + ":%d" % f.line)
+
+
+
 def run(rep, tier):
     prog = anda.load()
     C = anda.Coll(prog)
@@ -101,95 +197,20 @@ def run(rep, tier):
     # ------------------------------------------------------------------ R02.2 / R02.3 forward vs rollback
     rep.rule("R02.2", "rollback closure holds the inverse of every forward index operation per family; B-tree update restored with swapped operands", floor=9)
     rep.rule("R02.3", "after the first forward index mutation every path to an error return passes the rollback closure or the poison function", floor=3)
-    inv = {"insert": "remove", "remove": "insert", "update": "update", "purge_ids": None}
-    pois_ids = C.poison_ids
-    for name in ("add_impl", "update_impl", "remove_impl"):
-        f = prog.fn(anda.COLL + "::" + name)
-        clos = [prog.fns[e.cid] for e in f.creates() if e.cid in prog.fns]
-        # classify closures: rollback = invoked only on error edges
-        err_targets = set()
-        for (sb, place, adt, m, els) in f.variant_edges():
-            if adt in ("core::result::Result", "core::ops::control_flow::ControlFlow"):
-                t = m.get("Err", m.get("Break"))
-                if t is not None:
-                    err_targets.add(t)
-        rollback, forward_cl = [], []
-        for c in clos:
-            if not fam_ops(prog, [c] + prog.closures_of(c), fams):
-                continue
-            inv_sites = [e for e in f.calls() if c.id in prog.callee_nodes(e)]
-            if inv_sites and all(any(f.dominates(t, e.block) for t in err_targets) for e in inv_sites):
-                rollback.append((c, inv_sites))
-            else:
-                forward_cl.append((c, inv_sites))
-        fwd_fns = [c for c, _ in forward_cl] or [f]
-        fwd = fam_ops(prog, fwd_fns, fams)
-        if not rollback:
-            rep.ob("R02.2", "rollback-closure|%s" % name, False, "no rollback closure (index-mutating closure invoked only on error edges) found", f.file + ":%d" % f.line)
-            continue
-        rb = fam_ops(prog, [rollback[0][0]] + prog.closures_of(rollback[0][0]), fams)
-        for fam in sorted(fams):
-            fo = {op for op, _ in fwd.get(fam, ()) if op in MUT_OPS}
-            ro = {op for op, _ in rb.get(fam, ()) if op in MUT_OPS}
-            need = {inv[o] for o in fo if inv.get(o)}
-            rep.ob("R02.2", "inverse|%s|%s" % (name, fam), bool(fo) and need <= ro,
-                   "forward ops %s on %s need rollback ops %s, rollback closure has %s" % (sorted(fo), fam, sorted(need), sorted(ro)),
-                   "%s:%d" % (rollback[0][0].file, rollback[0][0].line))
-        # swapped operands for update
-        for fam in fams:
-            for (op, e) in rb.get(fam, ()):
-                if op == "update":
-                    g = e.fn
-                    a_old = _first_ref_field(g, e.args[2])
-                    a_new = _first_ref_field(g, e.args[3])
-                    ok = a_old == "1" and a_new == "0"
-                    rep.ob("R02.2", "swap|%s|%s" % (name, fam), ok,
-                           "rollback update must restore (new -> old): its `old` operand borrows tuple field .1 and its `new` operand field .0 (got .%s / .%s)" % (
-                               a_old, a_new), e.where())
-        # id-keyed families (BM25, HNSW): a removal of the id after an insertion of the same id, in the same pass, deletes the
-        # entry that was just (re)inserted - the remove must come first in the forward pass *and* in the rollback closure
-        for side, table in (("forward", fwd), ("rollback", rb)):
-            for fam in sorted(fams):
-                if fam == "btree_indexes":
-                    continue
-                insl = [e for (op, e) in table.get(fam, ()) if op == "insert"]
-                reml = [e for (op, e) in table.get(fam, ()) if op == "remove"]
-                if not insl or not reml:
-                    continue
-                late = []
-                for i_ in insl:
-                    for r_ in reml:
-                        if i_.fn is not r_.fn:
-                            continue
-                        g = i_.fn
-                        heads = {e.block for e in g.calls_named(r"Iterator::next$")}
-                        common = {h for h in heads if g.dominates(h, i_.block) and g.dominates(h, r_.block)
-                                  and g.can_reach([i_.block], [h]) and g.can_reach([r_.block], [h])}
-                        if r_.block in g.reachable_from(g.succ[i_.block], avoid=common):
-                            late.append(r_)
-                rep.ob("R02.2", "remove-before-insert|%s|%s|%s" % (name, side, fam), not late,
-                       "an id-keyed removal can run after the insertion of the same id in the %s pass (it would delete the entry just inserted)" % side,
-                       late[0].where() if late else f.file + ":%d" % f.line)
-        # R02.3
-        rb_blocks = set()
-        for c, sites in rollback:
-            rb_blocks |= {e.block for e in sites}
-        pb = {e.block for e in f.calls() if e.cid in pois_ids}
-        if forward_cl:
-            starts = set()
-            for c, sites in forward_cl:
-                starts |= {e.block for e in sites}
-        else:
-            starts = {e.block for fam in fwd for (op, e) in fwd[fam] if op in MUT_OPS and e.fn is f}
-        err_ret = _err_return_blocks(f)
-        bad = []
-        for s in sorted(starts):
-            r = valueflow.reachable_ps(f, s, avoid=rb_blocks | pb)
-            hit = (r & err_ret) - {s}
-            if hit:
-                bad.append((s, sorted(hit)[:3]))
-        rep.ob("R02.3", "rollback-or-poison|%s" % name, bool(starts) and bool(err_ret) and not bad,
-               "an error return is reachable after a forward index mutation without rollback/poison: %s" % bad, f.file + ":%d" % f.line)
+    rollback_rules(rep, prog, C, fams, "R02.2", "R02.3")
+
+    # ------------------------------------------------------------------ R02.7 changed index buckets are re-persisted
+    rep.rule("R02.7", "bucketed indexes (B-tree, BM25): every change of a bucket's recorded size is accompanied by marking the bucket dirty, so the next "
+                      "flush rewrites it and a reopened index answers from the same postings as the live one", floor=14)
+    from . import idxcommon as ix
+    ixprog = ix.load()
+    ix.size_change_marks_dirty(rep, "R02.7", ixprog, "btree")
+    ix.size_change_marks_dirty(rep, "R02.7", ixprog, "bm25")
+
+    # ------------------------------------------------------------------ R02.8 a refused index update keeps the old entry
+    rep.rule("R02.8", "an index update inserts the new value before removing the old one, so an update refused by the index leaves the stored document's entry in place", floor=2)
+    from .c04 import update_order_rules
+    update_order_rules(rep, "R02.8", ix.load())
 
     # ------------------------------------------------------------------ R02.4 id bitmap / ordered id set pairing
     rep.rule("R02.4", "every doc_ids (bitmap) mutation is paired with the matching doc_ids_index (ordered set) mutation in the same function", floor=6)
